@@ -509,7 +509,17 @@ var tempCounter int
 
 func CreateTemp(dir, pattern string) (*File, error) {
 	if dir == "" {
-		dir = os.TempDir()
+		if cf := current(); cf != nil {
+			// The process' temporary directory is part of the simulated
+			// machine (in memory; no system calls): <root>/.tmp
+			dir = filepath.Join(cf.root, ".tmp")
+			if _, ok := cf.top.children[".tmp"]; !ok {
+				cf.nino++
+				cf.top.children[".tmp"] = &inode{dir: true, children: map[string]*inode{}, mode: os.ModeDir | 0777, mtime: verifsim.Now(), ino: cf.nino}
+			}
+		} else {
+			dir = os.TempDir()
+		}
 	}
 	f, _ := fsFor(dir)
 	if f == nil {
@@ -906,6 +916,26 @@ func (f *FS) SetMTime(path string, t time.Time) bool {
 	}
 	n.mtime = t
 	return true
+}
+
+// Clone returns an independent deep copy of the disk (statistics reset).
+func (f *FS) Clone() *FS {
+	g := &FS{root: f.root, nino: f.nino, ByOp: map[string]int{}}
+	var cp func(n *inode) *inode
+	cp = func(n *inode) *inode {
+		c := &inode{dir: n.dir, mtime: n.mtime, mode: n.mode, ino: n.ino}
+		if n.dir {
+			c.children = make(map[string]*inode, len(n.children))
+			for k, v := range n.children {
+				c.children[k] = cp(v)
+			}
+		} else {
+			c.data = append([]byte(nil), n.data...)
+		}
+		return c
+	}
+	g.top = cp(f.top)
+	return g
 }
 
 // Root returns the root of the simulated disk.
